@@ -75,7 +75,7 @@ func (n *LocalNode) Join(peer chord.VNode) error {
 	verifPoint("join.finish.self", n)
 	n.state.Set(chord.Active) // release local join lock
 	verifPoint("join.finish.succ", n)
-	if err := successors[0].FinishJoin(false, true); err != nil { // release successor join lock
+	if err := n.releaseMembershipLock(func() error { return successors[0].FinishJoin(false, true) }); err != nil { // release successor join lock
 		n.logger.Warn("error releasing join lock in successor", zap.Error(err))
 	}
 
@@ -185,6 +185,22 @@ func (n *LocalNode) RequestToJoin(joiner chord.VNode) (chord.VNode, []chord.VNod
 	return prevPredecessor, chord.MakeSuccListByID(n, n.getSuccessors(), chord.ExtendedSuccessorEntries), nil
 }
 
+// releaseMembershipLock retries the release of a neighbour's membership lock: if the
+// request is lost the neighbour stays locked (Transferring) for good, so a transient
+// transport failure must not be the end of it. A neighbour that reports the lock as not
+// held (an earlier attempt got through and only its response was lost) or that is gone
+// ends the retries.
+func (n *LocalNode) releaseMembershipLock(release func() error) error {
+	return retry.Do(release,
+		retry.Attempts(3),
+		retry.Delay(n.StabilizeInterval),
+		retry.LastErrorOnly(true),
+		retry.RetryIf(func(err error) bool {
+			return !errors.Is(err, chord.ErrJoinInvalidState) && !errors.Is(err, chord.ErrLeaveInvalidState) && !errors.Is(err, chord.ErrNodeGone)
+		}),
+	)
+}
+
 // joinRoutingError turns "the request was routed to a node that has just left, or that is
 // itself still joining and has no successor yet" into a retryable refusal: this node is
 // still part of the ring and the pointers are being repaired, so the joiner should
@@ -290,7 +306,7 @@ func (n *LocalNode) Leave() {
 	verifPoint("leave.finish.self", n)
 	n.state.Set(chord.Left) // release local leave lock
 	if succ != nil && succ.ID() != n.ID() {
-		if err := succ.FinishLeave(false, true); err != nil { // if applicable, release successor leave lock
+		if err := n.releaseMembershipLock(func() error { return succ.FinishLeave(false, true) }); err != nil { // if applicable, release successor leave lock
 			n.logger.Warn("error releasing leave lock in successor", zap.Error(err))
 		}
 	}
